@@ -332,11 +332,102 @@ def prog_g3():
     return src
 
 
+# ---------------------------------------------------------------- G4 closures nested in same-named methods of several receiver types
+G4_TYPES = [("A", "struct{ N int }", "(v A)", "v.N", "A{N: 1}"), ("B", "struct{ N int }", "(p *B)", "p.N", "(&B{N: 2})"),
+            ("C", "int", "(v C)", "int(v)", "C(3)"), ("D[E any]", "struct{ e E; N int }", "(g D[E])", "g.N", "D[string]{N: 4}")]
+
+
+def g4_method(tn, recv, field, depth, ordinal, cap):
+    """method M<depth><ordinal><cap>: a closure nested `depth` deep, the `ordinal`-th closure of its level, capturing cap"""
+    tag = tn.split("[")[0]
+    uses = {"recv": "itoa(int64(%s))" % field, "local": "itoa(int64(loc))", "both": "itoa(int64(%s*100+loc))" % field}[cap]
+    inner = 'return "%s/d%d:" + %s + ":" + itoa(int64(a))' % (tag, depth, uses)
+    for d in range(depth, 0, -1):
+        pre = "sib := func() int { return %d }; _ = sib(); " % d if ordinal == 2 else ""
+        inner = "%sf%d := func() string { %s }; loc += %d; return f%d()" % (pre, d, inner, d, d)
+    return "func %s M%d%d%s(a int) string { loc := 10; %s }" % (recv, depth, ordinal, cap, inner)
+
+
+def g4_lib():
+    src = ""
+    for tn, under, recv, field, mk in G4_TYPES:
+        src += "type %s %s\n" % (tn, under)
+    for depth in (1, 2, 3):
+        for ordinal in (1, 2):
+            for cap in ("recv", "local", "both"):
+                for tn, under, recv, field, mk in G4_TYPES:
+                    src += g4_method(tn, recv, field, depth, ordinal, cap) + "\n"
+    return src
+
+
+def prog_g4(split):
+    P = "lib." if split else ""
+    main = ""
+    for depth in (1, 2, 3):
+        for ordinal in (1, 2):
+            for cap in ("recv", "local", "both"):
+                m = "M%d%d%s" % (depth, ordinal, cap)
+                calls = " + \"|\" + ".join("%s%s.%s(x)" % (P if not mk.startswith("(&") else "", mk if not mk.startswith("(&") else "(&%sB{N: 2})" % P, m) for tn, under, recv, field, mk in G4_TYPES)
+                vals = " + \"|\" + ".join("func() string { f := %s%s.%s; return f(x + 1) }()" % (P if not mk.startswith("(&") else "", mk if not mk.startswith("(&") else "(&%sB{N: 2})" % P, m) for tn, under, recv, field, mk in G4_TYPES)
+                main += "\tdrive(\"nest/%s\", func(x int) int {\n\t\tt(%s)\n\t\tt(%s)\n\t\treturn 0\n\t})\n" % (m, calls, vals)
+    lib = g4_lib()
+    if split:
+        src = PRELUDE.replace('import (\n\t"os"\n\t"unsafe"\n)', 'import (\n\t"os"\n\t"unsafe"\n\t"vt/lib"\n)') + HELPERS + "\nfunc main() {\n" + main + "\trunAll(cases)\n}\n"
+        libsrc = "package lib\n\n" + "func itoa(v int64) string {\n\tif v == 0 {\n\t\treturn \"0\"\n\t}\n\tneg := v < 0\n\tif neg {\n\t\tv = -v\n\t}\n\tvar b [24]byte\n\ti := len(b)\n\tfor v > 0 {\n\t\ti--\n\t\tb[i] = byte('0' + v%10)\n\t\tv /= 10\n\t}\n\tif neg {\n\t\ti--\n\t\tb[i] = '-'\n\t}\n\treturn string(b[i:])\n}\n\n" + lib
+        return {"main.go": src, "lib/lib.go": libsrc}
+    return {"main.go": PRELUDE + HELPERS + lib + "\nfunc main() {\n" + main + "\trunAll(cases)\n}\n"}
+
+
+# ---------------------------------------------------------------- G5 range forms whose body changes what is ranged over
+# every body is written so that the trace does not depend on map iteration order
+G5_CASES = [
+    ("map-delete-all-others", 'm := map[int]int{}; for i := 1; i <= 8; i++ { m[i] = i * i }; n := 0; for k := range m { n++; for j := 1; j <= 8; j++ { if j != k { delete(m, j) } } }; ti("iters=", n); ti("len=", len(m))'),
+    ("map-delete-partner", 'm := map[int]string{}; for i := 0; i < 12; i++ { m[i] = "v" }; n, pairs := 0, 0; for k := range m { n++; pairs += 1 << (k >> 1); delete(m, k^1) }; ti("iters=", n); ti("pairs=", pairs); ti("len=", len(m))'),
+    ("map-delete-current", 'm := map[string]int{"a": 1, "b": 2, "c": 3, "d": 4}; sum := 0; for k, v := range m { sum += v; delete(m, k) }; ti("sum=", sum); ti("len=", len(m))'),
+    ("map-delete-deps", 'm := map[int][]int{1: {2, 3}, 2: {4}, 3: {4}, 4: nil, 5: {1}}; n := 0; for k := range m { n++; for kk, ds := range m { if kk != k { _ = ds; delete(m, kk) } } }; ti("iters=", n)'),
+    ("map-clear-in-body", 'm := map[int]int{1: 1, 2: 2, 3: 3}; n := 0; for range m { n++; clear(m) }; ti("iters=", n)'),
+    ("map-update-values", 'm := map[int]int{1: 1, 2: 2, 3: 3}; sum := 0; for k, v := range m { m[k] = v * 10; sum += v }; ti("sum=", sum); ti("m=", m[1]+m[2]+m[3])'),
+    ("map-reassign-var", 'm := map[int]int{1: 1, 2: 2}; n := 0; for k := range m { n += k; m = nil }; ti("n=", n); ti("nil=", len(m))'),
+    ("map-nil", 'var m map[string]int; n := 0; for range m { n++ }; ti("n=", n)'),
+    ("map-keys-only-blank", 'm := map[int]bool{1: true, 2: true, 3: false}; n := 0; for _, v := range m { if v { n++ } }; for _ = range m { n += 10 }; ti("n=", n)'),
+    ("map-struct-values-copy", 'type pt struct{ x, y int }; m := map[string]pt{"a": {1, 2}, "b": {3, 4}}; s := 0; for _, v := range m { v.x = 100; s += v.y }; ti("s=", s); ti("x=", m["a"].x+m["b"].x)'),
+    ("slice-append-in-body", 's := []int{1, 2, 3}; n := 0; for i, v := range s { s = append(s, v*10); n += v; if i > 5 { break } }; ti("n=", n); ti("len=", len(s))'),
+    ("slice-write-ahead", 's := []int{1, 2, 3, 4}; acc := 0; for i, v := range s { if i+1 < len(s) { s[i+1] = v * 2 }; acc = acc*10 + v }; ti("acc=", acc)'),
+    ("slice-reslice", 's := []int{1, 2, 3, 4}; n := 0; for i := range s { s = s[:1]; n += i }; ti("n=", n); ti("len=", len(s))'),
+    ("array-copy", 'a := [3]int{1, 2, 3}; acc := 0; for i, v := range a { a[2] = 100; acc = acc*10 + v + i }; ti("acc=", acc); ti("a2=", a[2])'),
+    ("array-ptr-live", 'a := [3]int{1, 2, 3}; acc := 0; for i, v := range &a { a[2] = 7; acc = acc*10 + v + i }; ti("acc=", acc)'),
+    ("array-index-only-no-copy", 'a := [3]int{1, 2, 3}; acc := 0; for i := range a { a[2] = 9; acc = acc*10 + a[i] }; ti("acc=", acc)'),
+    ("string-reassign", 's := "h\\xffé世"; acc := 0; for i, r := range s { s = "zz"; acc += i*7 + int(r) }; ti("acc=", acc); t(s)'),
+    ("int-modify-bound", 'n := 3; acc := 0; for i := range n { n = 10; acc = acc*10 + i }; ti("acc=", acc); ti("n=", n)'),
+    ("int-modify-var", 'acc := 0; for i := range 4 { acc = acc*10 + i; i += 2 }; ti("acc=", acc)'),
+    ("chan-close-later", 'ch := make(chan int, 4); ch <- 1; ch <- 2; acc := 0; for v := range ch { acc = acc*10 + v; if v == 2 { ch <- 5; close(ch) } }; ti("acc=", acc)'),
+    ("func-break-nested", 'acc := 0; Outer: for a := range two { for b := range two { if b == 20 && a == 10 { continue Outer }; if a == 20 { break Outer }; acc = acc*100 + a + b } }; ti("acc=", acc)'),
+    # (a defer inside a range-over-func body that writes a captured variable is left out: go1.24.0, the reference here, prints 0 where go1.26 and the spec give 2010)
+    ("func-return-from-body", 'f := func() int { for k, v := range pairs { if k == 2 { return k*10 + len(v) } }; return -1 }; ti("r=", f())'),
+    ("closure-per-iteration", 'var fs []func() int; for i, v := range []int{5, 6, 7} { fs = append(fs, func() int { return i*10 + v }) }; acc := 0; for _, f := range fs { acc = acc*100 + f() }; ti("acc=", acc)'),
+    ("closure-per-iteration-map", 'm := map[int]int{1: 10, 2: 20, 3: 30}; var fs []func() int; for k, v := range m { fs = append(fs, func() int { return k*v }) }; acc := 0; for _, f := range fs { acc += f() }; ti("acc=", acc)'),
+    ("long-loop-local-array", 'sum := 0; for i := 0; i < 1500000; i++ { var buf [64]int; j := (i + x) & 63; buf[j] = i; sum += buf[j] & 3 }; ti("sum=", sum)'),
+    ("long-loop-index-of-result", 'sum := 0; for i := 0; i < 1500000; i++ { sum += get64()[(i+x)&63] }; ti("sum=", sum)'),
+    ("long-loop-array-value-copy", 'p := &[64]int{1: 3}; sum := 0; for i := 0; i < 1500000; i++ { v := *p; if i&1 == 0 { p[1]++; sum += v[(i&1)+1] & 7 } }; ti("sum=", sum)'),
+    ("closure-3clause-loopvar", 'var fs []func() int; for i := 0; i < 3; i++ { fs = append(fs, func() int { i += 10; return i }) }; acc := 0; for _, f := range fs { acc = acc*100 + f() }; ti("acc=", acc)'),
+]
+
+
+def prog_g5():
+    main = ""
+    for name, body in G5_CASES:
+        main += "\tdrive(\"range/%s\", func(x int) int {\n\t\t%s\n\t\treturn 0\n\t})\n" % (name, body)
+    return PRELUDE + HELPERS + "\n//go:noinline\nfunc get64() [64]int { return [64]int{1: 5, 2: 6} }\n\nfunc main() {\n" + main + "\trunAll(cases)\n}\n"
+
+
 def programs(tier):
     ps = dict(prog_g1(tier))
     ps["calls_single"] = prog_g2(False)
     ps["calls_split"] = prog_g2(True)
     ps["data"] = prog_g3()
+    ps["nest_single"] = prog_g4(False)
+    ps["nest_split"] = prog_g4(True)
+    ps["rangemut"] = prog_g5()
     return ps
 
 
